@@ -107,7 +107,7 @@ def body(ctx, conv, shape, bounds, as_coords, nan_cells=None, mesh_opts=None, de
     got = cv.bounds
     tag = 'no cell dropped as invalid' if not dropped_invalid else 'with a cell dropped as invalid'
     ctx.check(And(*[close(g, e) for g, e in zip(got, ex)]),
-              f'bounds == bounding box of the existing polygons ({tag})')
+              f'bounds == bounding box of the existing polygons ({tag})', soft=bool(dropped_invalid))
 
     geom = cv.geometry
     if ctx.symbolic:
@@ -138,7 +138,7 @@ def body(ctx, conv, shape, bounds, as_coords, nan_cells=None, mesh_opts=None, de
                           'CFGrid1D.geometry == union of the cell rectangles (contiguous cell bounds)')
                 if bounds == 'stored':
                     ctx.check(Iff(inbox, Or(*incell)),
-                              'CFGrid1D.geometry == union of the cell rectangles (stored bounds with gaps)')
+                              'CFGrid1D.geometry == union of the cell rectangles (stored bounds with gaps)', soft=True)
         else:
             ctx.check(False, f'unexpected geometry object {type(geom).__name__}')
     else:
@@ -156,7 +156,7 @@ def body(ctx, conv, shape, bounds, as_coords, nan_cells=None, mesh_opts=None, de
                 any(abs(yhi[j] - ylo[j + 1]) > 1e-9 for j in range(ny - 1))
         if conv == 'cf1d' and not dropped_invalid:
             if gaps:
-                ctx.check(diff <= 1e-7 * scale, 'CFGrid1D.geometry == union of the cell rectangles (stored bounds with gaps)')
+                ctx.check(diff <= 1e-7 * scale, 'CFGrid1D.geometry == union of the cell rectangles (stored bounds with gaps)', soft=True)
             else:
                 ctx.check(diff <= 1e-7 * scale, 'CFGrid1D.geometry == union of the cell rectangles (contiguous cell bounds)')
         elif conv != 'cf1d':
